@@ -241,11 +241,15 @@ class CoopEvent:
     """threading.Event stand-in whose waiting is visible to the scheduler. A timed wait() that finds the event unset gives way to
     another runnable worker once and then reports the event's state (the timer expires at an arbitrary later moment)."""
 
-    def __init__(self, s, name="event"):
+    def __init__(self, s, name="event", expire_when_alone=False, max_waits=60):
         self.s = s
         self.name = name
         self._flag = False
         self._waits = 0
+        # a periodic helper (refresh thread) would loop for ever once every other worker has finished: its timed wait then reports the event as set, as does
+        # the max_waits-th wait (the helper ends its loop early; the code that owns it still stops and joins it as usual)
+        self.expire_when_alone = expire_when_alone
+        self.max_waits = max_waits
 
     def is_set(self):
         return self._flag
@@ -276,6 +280,10 @@ class CoopEvent:
         # every other timed wait "expires at once" (the waiter carries on without giving way), the others give way to another worker:
         # a helper thread with a short period thus alternates between running its loop body and letting the other workers run
         self._waits += 1
+        if self.expire_when_alone:
+            me = s.cur
+            if self._waits > self.max_waits or not any((not w.finished) and w is not me for w in s.workers):
+                return True
         if self._waits % 2 == 1:
             s.yield_point(("event-wait", self.name))
             return self._flag
